@@ -15,7 +15,9 @@ From Coq Require Export String.
 From MP4 Require Export Bytes.
 Open Scope N_scope.
 
-Inductive err := EIo | EData.
+(** [ENotFound] is [Error::EntryInStblNotFound], the one error the library itself inspects
+    ([read_sample] turns it into [Ok(None)]); it is compared with the implementation as [EData]. *)
+Inductive err := EIo | EData | ENotFound.
 Inductive res (A : Type) : Type :=
 | Ok (a : A)
 | Err (e : err)
@@ -50,7 +52,8 @@ Definition is_oof {A} (r : res A) : bool :=
 Inductive rclass := COk | CIo | CData | CPanic | COof.
 Definition class_of {A} (r : res A) : rclass :=
   match r with
-  | Ok _ => COk | Err EIo => CIo | Err EData => CData | Panic _ => CPanic | OutOfFuel => COof
+  | Ok _ => COk | Err EIo => CIo | Err EData => CData | Err ENotFound => CData
+  | Panic _ => CPanic | OutOfFuel => COof
   end.
 
 (** ** Fixed-width unsigned arithmetic: [W] is the modulus (2^8, 2^16, 2^32, 2^64) *)
